@@ -56,6 +56,8 @@ def decode_value(v):
             args = [decode_value(x) for x in v.get('args', [])]
             kw = {k: decode_value(x) for k, x in v.get('kwargs', {}).items()}
             return cls(*args, **kw)
+        if '__dict__' in v:
+            return {k: decode_value(x) for k, x in v['__dict__'].items()}
         if '__none__' in v:
             return None
         raise ValueError('cannot decode %r' % (v,))
